@@ -56,7 +56,7 @@ Definition run_rcall (r : rcall) : xout :=
   | RPkH s u => XOk (ext_pk_h fx s u)
   | RAfter t => XOk (ext_after t)
   | ROlder t => XOk (ext_older t)
-  | RMulti k uncs => checked (ext_multi fx k uncs)
+  | RMulti k uncs => checked (ext_multi k uncs)
   | RMultiA k n => ext_multi_a_o k n
   | RUn w x =>
     checked (match w with
